@@ -113,9 +113,11 @@ zix_expand_environment_strings(ZixAllocator* const allocator,
       // Hit ~ before delimiter or end of string (home directory reference)
       const char* const prefix     = string + start;
       const size_t      prefix_len = s - start;
+      const char* const home       = find_env(zix_string("HOME"));
+      const char* const text       = home ? home : "~"; // Unchanged if unset
       if ((prefix_len &&
            !(out = append_str(allocator, &len, out, prefix_len, prefix))) ||
-          !(out = append_var(allocator, &len, out, 5U, "$HOME"))) {
+          !(out = append_str(allocator, &len, out, strlen(text), text))) {
         return NULL;
       }
       start = ++s;
